@@ -195,6 +195,20 @@ Theorem C13_reference_history :
 Proof. exact history_ref. Qed.
 Print Assumptions C13_reference_history.
 
+(* merge (hence + and bulkload, which feed update the same way) is the reference run on the
+   right operand's bins *)
+Theorem C13_reference_merge :
+  forall (fadd fsub fmul fdiv : Q -> Q -> Q) (fofZ : Z -> Q) (ftrunc : Q -> Z),
+  (forall a b, fadd a b = fadd b a) ->
+  forall (s1 s2 : @st Q),
+  Inv s1 -> cache_exact fadd fsub fmul fdiv fofZ ftrunc s1 -> Inv s2 ->
+  uniq_trace fadd fsub fmul fdiv fofZ ftrunc (cap s1) (bins s1) (bins s2) ->
+  exists s', merge (AA fadd fsub fmul fdiv fofZ ftrunc) s1 s2 = Some s' /\ Inv s' /\
+             cache_exact fadd fsub fmul fdiv fofZ ftrunc s' /\
+             ref_feed (AA fadd fsub fmul fdiv fofZ ftrunc) (cap s1) (bins s1) (bins s2) = Some (bins s').
+Proof. exact merge_ref. Qed.
+Print Assumptions C13_reference_merge.
+
 (* the exact-arithmetic instance *)
 Theorem C13_reference_history_exact :
   forall (cap0 : nat) (l : list (Q * Z)),
